@@ -43,10 +43,11 @@ type vfC12Case struct {
 }
 
 type vfC12Input struct {
-	desc   string
-	chunks [][]byte // written one after the other on the attacker's stream
-	eof    bool     // attacker closes its write side afterwards
-	setup  bool     // a benign subscribe+GRAFT precedes the hostile input
+	desc     string
+	chunks   [][]byte // written one after the other on the attacker's stream
+	eof      bool     // attacker closes its write side afterwards
+	setup    bool     // a benign subscribe+GRAFT precedes the hostile input
+	stepwise bool     // wait for quiescence after every chunk (each chunk is one complete RPC)
 }
 
 func vfC12Node(router string) (*vfWorld, *vfNode, *vfMetaStore) {
@@ -56,6 +57,9 @@ func vfC12Node(router string) (*vfWorld, *vfNode, *vfMetaStore) {
 	opts := []Option{WithMessageSignaturePolicy(StrictNoSign), WithMaxMessageSize(vfC12MaxMsg), WithDefaultValidator(NewBasicSeqnoValidator(meta, quiet))}
 	if router == "gossip" {
 		params := vfGSParams("d2")
+		// every control RPC (also the benign GRAFT of the setup) counts against the per-heartbeat IHAVE-message
+		// budget; leave room so that pairs of IHAVEs reach the id budget (MaxIHaveLength = 2) exactly
+		params.MaxIHaveMessages = 4
 		app := func(peer.ID) float64 { return 0 }
 		sp := &PeerScoreParams{AppSpecificScore: app, AppSpecificWeight: 1, DecayInterval: time.Second, DecayToZero: 0.01, RetainScore: 10 * time.Second,
 			BehaviourPenaltyWeight: -1, BehaviourPenaltyDecay: 0.9, IPColocationFactorWeight: -1, IPColocationFactorThreshold: 1,
@@ -331,6 +335,59 @@ func vfC12RPCInputs(self, attacker peer.ID, maxDev int) []vfC12Input {
 	return out
 }
 
+// vfC12SeqInputs: sequences of 2 (thorough: 3) well-formed RPCs from one peer inside one heartbeat interval; the
+// items are chosen so that per-heartbeat budgets are hit exactly, exceeded by one, and reused after exhaustion.
+func vfC12SeqInputs(self, attacker peer.ID, maxLen int) []vfC12Input {
+	t := "t"
+	tr := true
+	ids := func(n, base int) []string {
+		var o []string
+		for i := 0; i < n; i++ {
+			o = append(o, fmt.Sprintf("unseen-id-%02d", base+i))
+		}
+		return o
+	}
+	msg := &pb.Message{From: []byte(attacker), Data: []byte("hello-hello-hello-hello"), Seqno: []byte{0, 0, 0, 0, 0, 0, 0, 7}, Topic: &t}
+	type item struct {
+		name string
+		rpc  *RPC
+	}
+	items := []item{
+		{"sub", vfSubRPC("t", true)}, {"unsub", vfSubRPC("t", false)}, {"graft", vfGraftRPC("t")}, {"prune", vfPruneRPC("t", 1)},
+		{"ihave1", vfCtlRPC(&pb.ControlMessage{Ihave: []*pb.ControlIHave{{TopicID: &t, MessageIDs: ids(1, 0)}}})},
+		{"ihave2", vfCtlRPC(&pb.ControlMessage{Ihave: []*pb.ControlIHave{{TopicID: &t, MessageIDs: ids(2, 10)}}})},
+		{"ihave3", vfCtlRPC(&pb.ControlMessage{Ihave: []*pb.ControlIHave{{TopicID: &t, MessageIDs: ids(3, 20)}}})},
+		{"ihave1b", vfCtlRPC(&pb.ControlMessage{Ihave: []*pb.ControlIHave{{TopicID: &t, MessageIDs: ids(1, 30)}}})},
+		{"iwant", vfCtlRPC(&pb.ControlMessage{Iwant: []*pb.ControlIWant{{MessageIDs: []string{DefaultMsgIdFn(msg)}}}})},
+		{"idw1", vfCtlRPC(&pb.ControlMessage{Idontwant: []*pb.ControlIDontWant{{MessageIDs: ids(1, 40)}}})},
+		{"idw3", vfCtlRPC(&pb.ControlMessage{Idontwant: []*pb.ControlIDontWant{{MessageIDs: ids(3, 50)}}})},
+		{"publish", vfPubRPC(msg)},
+		{"ext", &RPC{RPC: pb.RPC{Control: &pb.ControlMessage{Extensions: &pb.ControlExtensions{PartialMessages: &tr, TestExtension: &tr}}}}},
+		{"partial", &RPC{RPC: pb.RPC{Partial: &pb.PartialMessagesExtension{TopicID: &t, GroupID: []byte("g"), PartialMessage: []byte("p"), PartsMetadata: []byte("m")}}}},
+	}
+	var out []vfC12Input
+	var rec func(cur []int)
+	rec = func(cur []int) {
+		if len(cur) >= 2 {
+			var names []string
+			var chunks [][]byte
+			for _, i := range cur {
+				names = append(names, items[i].name)
+				chunks = append(chunks, vfFrame(items[i].rpc))
+			}
+			out = append(out, vfC12Input{desc: "seq " + strings.Join(names, ","), chunks: chunks, setup: true, stepwise: true})
+		}
+		if len(cur) == maxLen {
+			return
+		}
+		for i := range items {
+			rec(append(append([]int{}, cur...), i))
+		}
+	}
+	rec(nil)
+	return out
+}
+
 // vfC12RunOne runs one candidate against a fresh node; returns an observation string.
 func vfC12RunOne(r *vfRun, c vfC12Case, in vfC12Input, judge bool) (obs string) {
 	bad := func(fp, format string, a ...any) {
@@ -369,6 +426,9 @@ func vfC12RunOne(r *vfRun, c vfC12Case, in vfC12Input, judge bool) (obs string) 
 		}
 		for _, ch := range in.chunks {
 			att.sendRaw(ch)
+			if in.stepwise {
+				synctest.Wait()
+			}
 		}
 		if in.eof {
 			att.in.CloseWrite()
@@ -442,6 +502,16 @@ func vfC12RunOne(r *vfRun, c vfC12Case, in vfC12Input, judge bool) (obs string) 
 			bad("honest-not-delivered", "a message from an honest peer is no longer delivered")
 		}
 		obs = fmt.Sprintf("reset=%v mustReset=%v probe=%v", wasReset, mustReset, got)
+		if r.replay {
+			for _, rc := range att.take() {
+				obs += " | " + vfRenderRPC(rc.rpc, nil)
+			}
+			n.eval(func() {
+				if n.gs != nil {
+					obs += fmt.Sprintf(" | iasked=%v peerhave=%v score=%v", n.gs.iasked, n.gs.peerhave, n.gs.score.Score(att.ident.id))
+				}
+			})
+		}
 		vfTeardown(w, n)
 	})
 	if p != "" {
@@ -459,6 +529,9 @@ func vfC12Families(thorough bool) []vfC12Case {
 		}
 		for _, proto := range protos {
 			out = append(out, vfC12Case{Router: router, Proto: proto, Family: "frame"}, vfC12Case{Router: router, Proto: proto, Family: "rpc"})
+			if router == "gossip" && (proto == "v13" || proto == "v11" || thorough) {
+				out = append(out, vfC12Case{Router: router, Proto: proto, Family: "seq"})
+			}
 		}
 	}
 	return out
@@ -468,6 +541,13 @@ func vfC12Inputs(c vfC12Case, thorough bool) []vfC12Input {
 	self, att := vfIdentity("N").id, vfIdentity("a").id
 	if c.Family == "frame" {
 		return vfC12FrameInputs(self, att)
+	}
+	if c.Family == "seq" {
+		n := 2
+		if thorough {
+			n = 3
+		}
+		return vfC12SeqInputs(self, att, n)
 	}
 	maxDev := 1
 	if thorough || c.Router == "gossip" {
